@@ -697,12 +697,25 @@ func CreateUpdateMsgFromPaths(pathList []*Path, options ...*bgp.MarshallingOptio
 	// Since sendMessageloop coalesces outgoing BGP UPDATE messages and
 	// the packers emit withdrawals before announcements, we should keep only the
 	// last action for each NLRI/path-id within one packing pass.
+	//
+	// The key has to be what identifies the route on the wire: without
+	// ADD-PATH the path identifier is not sent, so two paths to the same
+	// prefix (e.g. the old and the new best path) are the same route to the
+	// receiver and only the later one may be emitted - the packers do not
+	// preserve the order of announcements.
+	wireKey := func(path *Path) PathLocalKey {
+		key := path.GetLocalKey()
+		if !bgp.IsAddPathEnabled(false, path.GetFamily(), options) {
+			key.Id = 0
+		}
+		return key
+	}
 	last := make(map[PathLocalKey]*Path, len(pathList))
 	for _, path := range pathList {
 		if path == nil || path.IsEOR() {
 			continue
 		}
-		last[path.GetLocalKey()] = path
+		last[wireKey(path)] = path
 	}
 
 	m := make(map[bgp.Family]packerInterface)
@@ -722,7 +735,7 @@ func CreateUpdateMsgFromPaths(pathList []*Path, options ...*bgp.MarshallingOptio
 			add(path)
 			continue
 		}
-		if last[path.GetLocalKey()] != path {
+		if last[wireKey(path)] != path {
 			continue
 		}
 		add(path)
